@@ -294,10 +294,12 @@ def flow_start(check: core.Check) -> dict:
     if int(tc["FBits"]) != fc.FBITS or int(tc["FMaxTicks"]) != fc.FMAXTICKS:
         raise core.MachineryError("flow_common.FBITS / FMAXTICKS differ from ConstraintFlowTrace.cfg")
     slices = FLOW_SLICES[check.tier]
-    sens = [("ConstraintFlow.sens_guard.cfg", "InvFlow"), ("ConstraintFlow.sens_noguard.cfg", "InvFlow"),
-            ("ConstraintFlow.sens_once.cfg", "InvFlow"), ("ConstraintFlow.sens_widen.cfg", "InvFlow"),
-            ("ConstraintFlow.strict.cfg", "InvFlowStrict"), ("ConstraintFlow.fixed.cfg", None),
-            ("ConstraintFlow.strict5.cfg", "InvFlowStrict"), ("ConstraintFlow.fixed5.cfg", None)]
+    # quick: one self-test per oracle clause / deviation class; thorough: all
+    sens = [("ConstraintFlow.sens_guard.cfg", "InvFlow"), ("ConstraintFlow.sens_widen.cfg", "InvFlow"),
+            ("ConstraintFlow.strict.cfg", "InvFlowStrict"), ("ConstraintFlow.strict5.cfg", "InvFlowStrict")]
+    if check.tier != "quick":
+        sens += [("ConstraintFlow.sens_noguard.cfg", "InvFlow"), ("ConstraintFlow.sens_once.cfg", "InvFlow"),
+                 ("ConstraintFlow.fixed.cfg", None), ("ConstraintFlow.fixed5.cfg", None)]
 
     def tlc_slice(name: str):
         return name, core.run_tlc("ConstraintFlowEmit", f"ConstraintFlow.{name}.cfg", workers=max(2, core.NCPU // 2), timeout=3000)
@@ -336,6 +338,7 @@ def flow_finish(check: core.Check, started: dict) -> None:
     fl = check.cov.setdefault("flow", {})
     fl["wall_s"] = {"tlc_slices_coverage_sensitivity (overlapping the Narrowing TLC runs)": round(t1 - t0, 1)}
     fl["sensitivity"] = (
+        "(quick runs sens_guard, sens_widen, strict, strict5; thorough all) "
         "InvFlow is violated when the Impl model's origin guard is reversed (the seeded-change family) or removed, when a loop body is "
         "visited once, and (FlowN2) when an assignment keeps the old definition nodes; InvFlowStrict (no deviation class) is violated on "
         "the model of the code as found (strict.cfg), still violated with only proposed/C02-fix-4.diff on the loop slice (strict5.cfg) and "
